@@ -171,12 +171,32 @@ def grid_cases(ctx):
         fmt = r.choice(["sdmf", "mdmf"])
         fifo = r.choice(["none", "server"])
         case = {"seed": seed, "writers": W, "k": k, "N": N, "servers": S, "format": fmt, "fifo": fifo}
+        missing = r.choice([0, 0, 1, 2]) if N >= 3 else 0
+        case["missing_shares_before_race"] = missing
         with G.Grid(num_clients=W, num_servers=S, k=k, n=N, happy=1, seed=seed, fifo=fifo, timeout=300) as g:
             node0 = g.run(g.create_mutable(b"old-version", version=fmt))
             cap = node0.get_uri()
+            if missing:
+                # the file lacks some shares: every writer will place them afresh, on the same empty servers
+                shs0 = g.find_shares(cap)
+                r.shuffle(shs0)
+                for sh in shs0[:min(missing, max(0, len(shs0) - k))]:
+                    g.delete_share(sh)
             datas = [b"writer-%d-" % j + bytes([65 + j]) * r.randrange(1, 40) for j in range(W)]
-            ds = [g.mutable_overwrite(g.node(cap, client=j), datas[j], client=j) for j in range(W)]
-            out = g.run(defer.DeferredList(ds, consumeErrors=True), outcome=True)
+            wlog = []
+            restore = watch_server_writes(wlog)
+            try:
+                ds = [g.mutable_overwrite(g.node(cap, client=j), datas[j], client=j) for j in range(W)]
+                out = g.run(defer.DeferredList(ds, consumeErrors=True), outcome=True)
+            finally:
+                restore()
+            bad = unguarded_overwrites(wlog)
+            if bad:
+                ctx.case((seed, "unguarded"), kind="grid:unguarded-overwrite")
+                ctx.oracle_fail("share-overwritten-without-testing-its-version",
+                                "a storage server applied a write to an EXISTING share although the request's test vector did not pin "
+                                "the share's current version: %r" % (bad[0],), case=case, observed=bad[:3])
+                continue
             ctx.case((seed, W, k, N, fmt, fifo), kind="grid:W=%d:bound=%s" % (W, (W + 1) * k <= N))
             if out.status != "ok":
                 ctx.oracle_fail("concurrent-publish-never-finished", "concurrent publishes: %s" % out.status, case=case)
@@ -221,3 +241,56 @@ def grid_cases(ctx):
                     continue
             ctx.trace(1)
             ctx.sample(case, limit=8)
+
+
+# ---------------------------------------------------------------------------
+# Server-side observation of the race (harness instrumentation, transparent to the code under test)
+# ---------------------------------------------------------------------------
+def watch_server_writes(log):
+    """Wrap StorageServer.slot_testv_and_readv_and_writev on the class: for each share a request
+    writes, record the first bytes of the share BEFORE the request, the test vector and the verdict."""
+    import functools
+    import allmydata.storage.server as SS
+    orig = SS.StorageServer.slot_testv_and_readv_and_writev
+
+    @functools.wraps(orig)
+    def wrapper(self, storage_index, secrets, test_and_write_vectors, read_vector, renew_leases=True):
+        pre = {}
+        try:
+            got = self.slot_readv(storage_index, list(test_and_write_vectors.keys()), [(0, 80)])
+            for shnum in test_and_write_vectors:
+                pre[shnum] = got.get(shnum, [None])[0]
+        except Exception:
+            pass
+        res = orig(self, storage_index, secrets, test_and_write_vectors, read_vector, renew_leases)
+        try:
+            log.append({"pre": pre, "tw": {sh: (list(v[0]), len(v[1]), v[2]) for sh, v in test_and_write_vectors.items()}, "wrote": bool(res[0])})
+        except Exception:
+            pass
+        return res
+    SS.StorageServer.slot_testv_and_readv_and_writev = wrapper
+
+    def restore():
+        SS.StorageServer.slot_testv_and_readv_and_writev = orig
+    return restore
+
+
+def unguarded_overwrites(log):
+    """Applied writes to a share that existed, whose test vector does not compare at least the
+    version prefix (version byte, sequence number, root hash = 41 bytes) with what was there."""
+    bad = []
+    for rec in log:
+        if not rec["wrote"]:
+            continue
+        for shnum, (testv, nwrites, newlen) in rec["tw"].items():
+            before = rec["pre"].get(shnum)
+            if not before or nwrites == 0:
+                continue          # the share did not exist (placing it afresh), or nothing is written to it
+            pinned = False
+            for tv in testv:
+                off, length, specimen = tv[0], tv[1], tv[-1]
+                if off == 0 and length >= 41 and bytes(specimen) == bytes(before[:length]):
+                    pinned = True
+            if not pinned:
+                bad.append({"shnum": shnum, "testv": [(tv[0], tv[1], bytes(tv[-1]).hex()) for tv in testv], "share_began_with": bytes(before[:41]).hex()})
+    return bad
